@@ -285,7 +285,7 @@ static int scan_line(npd_scan_state_t *nssp)
 	case 'p':
 	    if (strcmp(&FIELD(nssp, 0)[2], "parameters") == 0) {
 		/* special-case: join the parameter fields by comma */
-		for (size_t s = 3; s < nssp->nss_field_count; ++s) {
+		for (size_t s = 2; s < nssp->nss_field_count; ++s) {
 		    FIELD(nssp, s)[-1] = ',';
 		}
 		nssp->nss_field_count = 2;
